@@ -53,7 +53,11 @@ func runIRChecks(c *Ctx, wf, domExact bool, maxBlocks int) {
 	for _, t := range irTargets(c.Tier) {
 		var overlay map[string][]byte
 		if t.Gen {
-			overlay = map[string][]byte{filepath.Join(t.Dir, "irc", "zz_gen.go"): []byte(genPrograms(c.Tier))}
+			genTier := c.Tier
+			if !wf {
+				genTier = "quick" // C14(b): the larger program family is used by C02 only
+			}
+			overlay = map[string][]byte{filepath.Join(t.Dir, "irc", "zz_gen.go"): []byte(genPrograms(genTier))}
 		}
 		for _, m := range modes {
 			fns, err := loadIRFuncs(t.Dir, overlay, t.Patterns, m.Mode)
